@@ -176,6 +176,8 @@ def lattice():
         for fl in ("review", "report,update", "review,update", "update", "report", "create,fix,trim", "fix,update", "create,fix,trim,update"):
             out.append({"project": proj, "cli": fl, "skip_updates": True, "answers": {c: True for c in CATS}})
         out.append({"project": proj, "shortcut": "fix"})
+        out.append({"project": proj, "shortcut": "fix", "shortcuts": {"fix": ["fix"]}})
+        out.append({"project": proj, "shortcut": "review", "shortcuts": {"review": ["trim", "update"], "fix": ["create"]}})
         out.append({"project": proj, "shortcut": "review", "answers": {"create": True}})
         out.append({"project": proj, "tty": True, "answers": {"create": True, "fix": True}})
         out.append({"project": proj, "tty": True, "answers": {}})
@@ -231,8 +233,10 @@ def random_config(rng, project):
             cfg["default_flags"] = other  # (else: the project configures the terminal default only)
         cfg["tty"] = True
     else:
-        cfg["shortcut"] = "sc"
-        cfg["shortcuts"] = {"sc": fl, "other": other}
+        # (a project may give the built-in shortcut names --fix / --review another meaning, docs/configuration.md)
+        name = rng.choice(["sc", "sc", "fix", "review"])
+        cfg["shortcut"] = name
+        cfg["shortcuts"] = {name: fl, "other": other}
         if rng.random() < 0.5:
             cfg["envvar"] = ",".join(other)
     if "review" in fl or cfg.get("tty"):
